@@ -1,14 +1,101 @@
-import VyxalModel.Model.RefSem
-/-! # C01 — structures execute as specified (property theorems; under construction) -/
-namespace Vy.Sem
+import VyxalModel.Lemmas.Compile2
+import VyxalModel.Gen.Elements
+import VyxalModel.Gen.Modifiers
+/-!
+# C01 — structures execute as specified (transpiled program = reference semantics)
 
-/-- `pop(stack, k, ctx)` always delivers exactly `k` values (implicit input fills the gap) -/
-theorem popN_length (k : Nat) (st : List Val) (ins : List (List Val × Nat)) : (popN k st ins).1.length = k := by
-  induction k generalizing st ins with
-  | zero => simp [popN]
-  | succ k ih =>
-    cases st with
-    | nil => simp only [popN]; simp [ih]
-    | cons x st => simp only [popN]; simp [ih]
+Three executable pieces are related here:
+
+* `RefSem.execL / refProgram` — the reference semantics of the parsed `Structure` tree (documents/specs);
+* `Transpile.transpileAst` — the model of `transpile.py` (tied to the real transpiler by the AST stream);
+* `PySem.execPL / pyProgram` — the semantics of the emitted Python fragment (tied to CPython by the py stream).
+
+The theorems say: **wherever the reference semantics gives a program a meaning, the Python semantics of the
+transpiled program computes the same final stack and the same printed text** — for every program of the fragment,
+every nesting depth, every input list, every flag set of the property, every fuel.  They are parametric in the
+element library: nothing in the proofs looks inside `CoreLib.elemFn`, so they cover every element whose table
+entry is the `process_element` boilerplate of a first-order function (237 entries of the current table).
+
+Stage reached: the closure-free fragment (literals, first-order elements, variables, `if` chains, `for`, `while`,
+break / continue, the implicit output).  The full statement — the same for lambdas, named functions, list
+literals and modifiers — is `compile_correct` below as a comment; what is proved is named `…_partial_no_closures`.
+The remaining constructs are executable in both interpreters and compared on every generated program by the
+`py-vs-ref`, `py` and `ref` streams of the check.
+-/
+namespace Vy.Sem
+open Vy PyAst
+
+/-- the fragment of stage 2 -/
+def Frag2 (tbl : List Gen.Entry) (prog : List Structure) : Prop := frag2L tbl prog = true
+
+instance (tbl : List Gen.Entry) (prog : List Structure) : Decidable (Frag2 tbl prog) := by unfold Frag2; infer_instance
+
+/-- **Simulation, closure-free fragment**: from related states, whenever the reference semantics of `prog` is defined,
+    the Python semantics of the transpiled code yields the corresponding signal and a related state. -/
+theorem simulation_no_closures (cfg : Cfg) (env : TEnv) (hE : cfg.elements = env.elements)
+    (prog : List Structure) (hf : Frag2 env.elements prog) (k : Nat) (code : List PyStmt) (k' : Nat)
+    (ht : transpileL env k prog = .ok (code, k')) (n : Nat) (σ σ' : RSt) (π : PSt) (sg : Sig)
+    (h : Rel σ π) (hr : execL cfg n prog σ = .ok (sg, σ')) :
+    ∃ π', execPL cfg n code π = .ok (sigP sg, π') ∧ Post sg σ' π' :=
+  simL cfg env hE prog hf k code k' ht n σ π sg σ' h hr
+
+/-
+Full statement (all structures of the property):
+
+theorem compile_correct (cfg env) (hE : cfg.elements = env.elements) (hM : cfg.modifiers = env.modifiers)
+    (prog : List Structure) (code) (ht : transpileAst env prog = .ok code) (fuel flags inputs obs)
+    (hr : refProgram cfg fuel flags inputs prog = .ok obs) : pyProgram cfg fuel flags inputs code = .ok obs
+
+Proved below for the closure-free fragment; lambdas (plain, map, filter, sort), named functions, list literals
+and modifiers are not yet covered by a theorem (they are covered by the three correspondence streams).
+-/
+
+/-- **C01, closure-free fragment**: a program of the fragment that the reference semantics runs to an observation
+    (final stack, printed text including the implicit output under the given flags) is run to the same
+    observation by the Python semantics of its transpilation — all programs, inputs, flags, fuel. -/
+theorem compile_correct_partial_no_closures (cfg : Cfg) (env : TEnv) (hE : cfg.elements = env.elements)
+    (prog : List Structure) (hf : Frag2 env.elements prog) (code : List PyStmt)
+    (ht : transpileAst env prog = .ok code) (fuel : Nat) (flags : String) (inputs : List Val)
+    (obs : List Val × String) (hr : refProgram cfg fuel flags inputs prog = .ok obs) :
+    pyProgram cfg fuel flags inputs code = .ok obs := by
+  unfold transpileAst at ht
+  cases htl : transpileL env 0 prog with
+  | error e => simp [htl] at ht
+  | ok r =>
+    obtain ⟨c, k'⟩ := r
+    simp [htl] at ht; subst ht
+    unfold refProgram at hr
+    cases hex : execL cfg fuel prog (initState flags inputs) with
+    | error e => simp [hex] at hr
+    | ok r1 =>
+      obtain ⟨sg, σ⟩ := r1
+      simp only [hex, R_ok_bind] at hr
+      obtain ⟨π, he, hP⟩ := simL cfg env hE prog hf 0 c k' htl fuel _ _ sg σ (rel_init flags inputs) hex
+      unfold pyProgram
+      rw [execPL_orPass, he]
+      cases sg with
+      | normal =>
+        simp only [sigP, R_ok_bind] at hr ⊢
+        have hR : Rel σ π := hP
+        cases hfin : finish flags σ with
+        | error e => simp [hfin] at hr
+        | ok σ' =>
+          simp [hfin] at hr; subst hr
+          obtain ⟨π', hfp, hout⟩ := finish_sim flags hR hfin
+          simp [hfp, hR.getStack, hout]
+      | brk => simp at hr
+      | cont => simp at hr
+      | ret v => simp at hr
+
+/-- the fragment is not empty: `3(←a 2%[+|-X]){←a|←a‹→a}`: an `if` with a break inside a `for`, and a `while` -/
+example : Frag2 Gen.elements
+    [ .generic ⟨.number, [51]⟩,
+      .forS [] [ .generic ⟨.vget, [97]⟩, .generic ⟨.number, [50]⟩, .generic ⟨.general, [37]⟩,
+                 .ifS [[.generic ⟨.general, [43]⟩], [.generic ⟨.general, [45]⟩, .brk .forS]] ],
+      .whileS (some [.generic ⟨.vget, [97]⟩]) [.generic ⟨.vget, [97]⟩, .generic ⟨.general, [8249]⟩, .generic ⟨.vset, [97]⟩] ] := by
+  decide +kernel
+
+/-- how much of the current element table the parametric element lemma covers -/
+theorem table_coverage : (Gen.elements.filter elemOK).length = 237 := by decide +kernel
 
 end Vy.Sem
